@@ -647,7 +647,14 @@ def run_iter(res, ast):
                         if t == "Assign" and idx_name(x["left"]) == cur:
                             acts.append(("cur=", None))
                 ct = cond_text(ast, conds)
-                in_bounds = any(c[0] == "if" and c[2] and ast.src1(SV, c[1]).replace(" ", "") in (f"{cur}<{size}", f"*{cur}<*{size}") for c in conds)
+                def bounds_test(c):
+                    if c[0] != "if":
+                        return False
+                    t_ = ast.src1(SV, c[1]).replace(" ", "").replace("*", "").replace("(", "").replace(")", "")
+                    lt = (f"{cur}<{size}", f"{size}>{cur}")          # true on the taken side
+                    ge = (f"{cur}>={size}", f"{size}<={cur}")        # true on the not-taken side
+                    return (c[2] and t_ in lt) or ((not c[2]) and t_ in ge)
+                in_bounds = any(bounds_test(c) for c in conds)
                 key = f"{SV}|{f['container']}::{f['name']}|path|{ct}"
                 res.evaluations += 1
                 if not acts:
